@@ -30,9 +30,13 @@ def valid(cfgs: List[Tuple[int, int, int]]) -> bool:
     return True
 
 
+FORM = os.environ.get("FORM", "list")        # how the schedule is handed over: list | tuple | generator (any iterable is documented)
+
+
 def _manager_ok(cfgs: List[Tuple[int, int, int]]) -> bool:
     try:
-        mgr = EpochManager([EpochConfig(EpochType(t), d, th, None) for t, d, th in cfgs])
+        items = [EpochConfig(EpochType(t), d, th, None) for t, d, th in cfgs]
+        mgr = EpochManager(items if FORM == "list" else tuple(items) if FORM == "tuple" else (c for c in items))
     except RuntimeError:
         return not valid(cfgs)
     if not valid(cfgs):
